@@ -20,6 +20,32 @@ ASSUMPTIONS = [
 ]
 
 
+def redeclared_while_running(raw):
+    """Root cause shared by several symptoms: a step whose command runs while the step is detached
+    (its creator was killed and restarted, or is re-running) is declared again by the creator, and
+    the old command goes on sending requests or exits afterwards. Returns the step label or None.
+    Condition on the event list: define_step(L), later a kill, later define_step(L) again, and
+    an event sent by L's command after the kill."""
+    if not raw:
+        return None
+    defs, kills, acts = {}, [], {}
+    for i, e in enumerate(raw):
+        if e[0] == "kill":
+            kills.append(i)
+        elif e[0] == "req":
+            if e[2][0] == "define_step":
+                defs.setdefault(e[2][2], []).append(i)
+            acts.setdefault(e[1], []).append(i)
+        elif e[0] == "exit":
+            acts.setdefault(e[1], []).append(i)
+    for label, idx in defs.items():
+        for i1 in idx:
+            for k in kills:
+                if k > i1 and any(i2 > k for i2 in idx) and any(j > k for j in acts.get(label, [])):
+                    return label
+    return None
+
+
 class Check:
     def __init__(self, acc):
         self.acc = acc
@@ -31,8 +57,10 @@ class Check:
         for kind, msg in refmodel.invariants(con):
             if kind in ("glob-matches-product", "tree-ownership"):
                 continue  # ownership is C08's
-            self.acc.violation(f"C09|invariant|{kind}", {"invariant": kind, "what": msg,
-                                                         "events": self.events}, {"events": self.events})
+            key = f"C09|invariant|{kind}"
+            if redeclared_while_running(self.raw):
+                key += "|step-running-while-detached-was-redeclared"
+            self.acc.violation(key, {"invariant": kind, "what": msg, "events": self.events}, {"events": self.events})
 
     def after_event(self, machine, ev, before, after, info, sim):
         last = info["last"]
@@ -46,6 +74,8 @@ class Check:
                     # the completion of a command that was started under an earlier definition of
                     # the step is applied to the step after its creator re-declared it
                     key += "|completion-of-a-run-started-before-the-step-was-redeclared"
+                elif redeclared_while_running(self.raw):
+                    key += "|step-running-while-detached-was-redeclared"
             self.acc.violation(key, {"what": msg, "events": self.events}, {"events": self.events})
         reply = last["reply"]
         if isinstance(reply, opx.RemoteFailure) and reply.qualname in opx.INTERNAL_ERRORS:
@@ -58,8 +88,10 @@ class Check:
         if last["phase_ended"]:
             rec = info["last_phase"]
             if rec.get("error"):
-                self.acc.violation(f"C09|director-raised|{rec.get('error_type')}",
-                                   {"error": rec["error"][-1500:], "events": self.events}, {"events": self.events})
+                key = f"C09|director-raised|{rec.get('error_type')}"
+                if redeclared_while_running(self.raw):
+                    key += "|step-running-while-detached-was-redeclared"
+                self.acc.violation(key, {"error": rec["error"][-1500:], "events": self.events}, {"events": self.events})
         if before is not None and after is not None and before["raw"] != after["raw"]:
             self.acc.nontrivial.add(h8(self.events))
 
